@@ -1350,7 +1350,7 @@ class TemplateModel(object):
 
     def save_spike_clusters(self, spike_clusters):
         """Save the spike clusters."""
-        path = self._find_path('spike_clusters.npy', 'spikes.clusters.npy', multiple_ok=False)
+        path = self._find_path('spike_clusters.npy', 'spikes.clusters*.npy', multiple_ok=False)
         logger.debug("Save spike clusters to `%s`.", path)
         np.save(path, spike_clusters)
 
